@@ -17,8 +17,11 @@ TEMPLATES = {
     "timed_hold": "CmdA\nHold: 3s\nMark: M1\n",
     "simulate": "Simulate: In1 = 7\nMark: M1\nCmdA\nWait: 3s\n",
     "watch_cmd": "Watch: In1 > 0\n    CmdA\n    Mark: W1\nMark: M1\nWait: 3s\n",
+    # an Alarm body that starts a long-running command and is invoked again while that command still runs
+    "alarm_cmd": "Alarm: In1 > 0\n    CmdA\n    Wait: 0.2s\nMark: M1\nWait: 3s\n",
 }
 N = 14
+N_BY_TEMPLATE = {"alarm_cmd": 22}
 
 
 def harness(sym):
@@ -27,6 +30,7 @@ def harness(sym):
     kind = sym.shard["kind"]
     pc = TEMPLATES[t]
     durations = {n: sym.int(f"dur_{n}", 2, 9) for n in ("CmdA", "CmdB", "CmdC") if n in pc}
+    N = N_BY_TEMPLATE.get(t, globals()["N"])
     te = sym.int("ev_tick", 1, N - 5)
     pre = sym.shard.get("pre")                    # Pause / Hold issued two ticks before the Stop / Restart
     then_start = sym.shard.get("then_start", False) and kind == "Stop"
